@@ -74,10 +74,7 @@ ROOT_NAMES = [
     "a%Yb%%c",
     "t.",
     "[x]*?",
-    "tab\tname",
-    "cr\rname",
-    "nl\nname",
-    "x\u0085y",
+    # (names with control characters - TAB, CR, LF, NEL - are outside the quantifier: the format's text fields exclude them)
     "Clips.txt",
 ]
 ZONES = [
